@@ -75,14 +75,20 @@ theorem core_cbThen (c : Ctx) (s : St) (obs : List Obs) (frames : Nat → List F
     (nodeFinish c s obs d n below).1.core = s.core := by
   simp [nodeFinish]
 
+@[simp] theorem core_recSpawn (s : St) (d : DagRef) (n : Node) (v : Val) : (recSpawn s d n v).core = s.core := by
+  unfold recSpawn; split <;> simp
+
+@[simp] theorem core_storeIf (s : St) (b : Bool) (n : Node) (v : Val) : (storeIf s b n v).core = s.core := by
+  unfold storeIf; split <;> simp
+
 @[simp] theorem core_nodePost (c : Ctx) (s : St) (obs : List Obs) (d : DagRef) (n : Node) (below : List Frame)
     (v : Val) (e : Bool) : (nodePost c s obs d n below v e).1.core = s.core := by
   unfold nodePost
   simp only []
   split
   · rw [core_cbThen _ _ _ _ _ _ (fun s' obs' => core_nodeFinish _ _ _ _ _ _)]
-    split <;> simp
-  · split <;> simp
+    simp
+  · simp
 
 @[simp] theorem core_nodeFailCont (c : Ctx) (s : St) (obs : List Obs) (d : DagRef) (n : Node) (below : List Frame)
     (e : Exc) : (nodeFailCont c s obs d n below e).1.core = s.core := by
